@@ -328,6 +328,8 @@ theorem hofFilter_sim (c : ICtx) (a : Nat) : ∀ (xs : Seq) (D : Env) (acc : Seq
     | [] => simp only [SM.throw_bind]; exact Sim.thr _ _
     | [.int _] => simp only [SM.throw_bind]; exact Sim.thr _ _
     | [.fn _] => simp only [SM.throw_bind]; exact Sim.thr _ _
+    | [.dec _] => simp only [SM.throw_bind]; exact Sim.thr _ _
+    | [.dbl _] => simp only [SM.throw_bind]; exact Sim.thr _ _
     | _ :: _ :: _ => simp only [SM.throw_bind]; exact Sim.thr _ _
 
 theorem hofFoldLeft_sim (c : ICtx) (a : Nat) : ∀ (xs : Seq) (D : Env) (res : Seq),
@@ -492,6 +494,12 @@ theorem step_sim (e : Expr) (c : ICtx) (D : Env) :
     Sim Prod.fst (step cfg ev e c D) (specStep sev e (eraseCtx c)) := by
   cases e with
   | lit n => exact Sim.ret _ _ _ rfl
+  | dlit n => exact Sim.ret _ _ _ rfl
+  | elit n => exact Sim.ret _ _ _ rfl
+  | inst t e =>
+    simp only [step, specStep]
+    apply Sim.bnd (hev e c D); intro v
+    exact Sim.ret _ _ _ rfl
   | tt => exact Sim.ret _ _ _ rfl
   | ff => exact Sim.ret _ _ _ rfl
   | emp => exact Sim.ret _ _ _ rfl
